@@ -43,6 +43,7 @@ package sem
 //@     && decOK(part(w, 1)) && decOK(part(w, 2)) && decOK(part(w, 3))
 
 //@ func unmarshalText
+//@   ensures [C17.input] heapSame()
 //@   ensures [C03.accept] err == nil <==> accepts(input, f)
 //@   ensures [C03.fields] err == nil ==> v.Major == decVal(part(input, 1)) && v.Minor == decVal(part(input, 2)) && v.Patch == decVal(part(input, 3))
 //@   ensures [C03.fields] err == nil ==> v.PreRelease == part(input, 4) && v.Build == part(input, 5)
@@ -63,17 +64,21 @@ package sem
 //@     && (err == nil ==> v.Major == decVal(part(w, 1)) && v.Minor == decVal(part(w, 2)) && v.Patch == decVal(part(w, 3)) && v.PreRelease == part(w, 4) && v.Build == part(w, 5))
 //@     && (err != nil ==> v == Ver{})
 //@ func DefaultParser
+//@   ensures [C17.input] heapSame()
 //@   ensures [C03.accept C03.fields C03.zero] parsed(input, ite(r&RuleDisableTag == 0, formVersion|formTag, formVersion), v, err)
 //@   ensures [C17.zero] err != nil ==> errAs(err, *ParseError[T])
 //@   ensures [C18.limit] len(input) > 0 && !withinLimit(len(input)) ==> errIs(err, ErrInputTooLong) && errData(err, "inputLen") == 0
 //@   ensures [C18.limit] errIs(err, ErrInputTooLong) ==> len(input) > 0 && !withinLimit(len(input))
 //@ func Parse
+//@   ensures [C17.input] heapSame()
 //@   ensures [C03.accept C03.fields C03.zero] parsed(input, formVersion|formTag, r0, r1)
 //@   ensures [C17.zero] r1 != nil ==> errAs(r1, *ParseError[T])
 //@ func ParseVersion
+//@   ensures [C17.input] heapSame()
 //@   ensures [C03.accept C03.fields C03.zero] parsed(input, formVersion, r0, r1)
 //@   ensures [C17.zero] r1 != nil ==> errAs(r1, *ParseError[T])
 //@ func ParseTag
+//@   ensures [C17.input] heapSame()
 //@   ensures [C03.accept C03.fields C03.zero] parsed(input, formTag, r0, r1)
 //@   ensures [C17.zero] r1 != nil ==> errAs(r1, *ParseError[T])
 
@@ -102,6 +107,7 @@ package sem
 //@   ensures fresh(r0)
 
 //@ func (*Ver).UnmarshalText
+//@   ensures [C17.input] heapSame()
 //@   ensures [C17.recv] err != nil ==> *v == old(*v)
 //@   ensures [C03.accept C03.fields] parsed(data, formVersion|formTag, *v, err) || err != nil
 //@   ensures [C03.accept] err == nil <==> accepts(data, formVersion|formTag)
